@@ -222,6 +222,17 @@ def make_op(rng, tag, tfiles):
             return {'k': 'trans', 'names': [name], 'spec': spec,
                     'params': {'quiet': True}, 'tname': tname,
                     'tfile': tfiles[tname], 'shuffle': rng.randrange(99)}
+        if r > 0.7:
+            # productions for which the two head-rule presets disagree
+            hp = gen.Pools(cats=['VP', 'PP', 'NP', 'ADJP', 'S'],
+                           pos=['MD', 'IN', 'DT', 'NN', 'RB', 'JJ', 'VB'],
+                           words=['a', 'b'])
+            return {'k': 'trans', 'names': ['mark_heads_by_rules'],
+                    'spec': gen.tree(rng, rng.randint(2, 4), hp, max_arity=3,
+                                     p_unary=0, moves=0, sid=1),
+                    'params': {'mark_heads_preset': rng.choice(['negra',
+                                                                'ptb'])},
+                    'shuffle': 0}
         seqs = [['root_attach', 'negra_mark_heads', 'boyd_split', 'raising'],
                 ['negra_mark_heads', 'binarize'], ['punctuation_delete'],
                 ['punctuation_verylow'], ['collapse_unary_chains'],
